@@ -383,6 +383,79 @@ def check_C09(ctx, unit):
             ctx.inst("E.descent-agreement", "%s: descent tests" % f.uq,
                      len(sig["prefix"]) >= 1 and all(s.startswith("pfx_of(k,") for s in sig["prefix"]) and sig["leaf"] == {"N.depth == %d" % ll},
                      f.loc, "prefix tests %s; leaf tests %s" % (sorted(sig["prefix"]), sorted(sig["leaf"])), f)
+    # the depth of the inner node that a split inserts: a counter that is only advanced past digits that were compared
+    ctx.rule("E.split-depth-tested", "the depth given to the inner node of a split counts common leading digits: the counter is "
+             "advanced only on a path on which pfx_of(k, d+1) == pfx_of(sibling prefix, d+1) was just found true", 1)
+    n_split = 0
+    for f in _fn(unit, "find_or_insert"):
+        fresh = fresh_nodes(f)
+        al = local_aliases(f)
+        dvars = set()
+        for n in f.events():
+            w = write_of(n)
+            if w and w[0] and len(w[0]) == 2 and w[0][1] == "depth" and w[1] is not None:
+                d = root_did(w[0])
+                v = std_unwrap(w[1])
+                if d is not None and resolve_alias(al, d) in fresh and v.kind == "DeclRefExpr" and v.get("local") and v.cv() is None \
+                        and v.d["d"] not in {p_["d"] for p_ in f.params()}:
+                    dvars.add(v.d["d"])
+        for dv in sorted(dvars):
+            n_split += 1
+            bad = []
+
+            def is_dv(x, dv=dv):
+                x = x.strip()
+                return x.kind == "DeclRefExpr" and x.d["d"] == dv
+
+            def next_digit_test(c, dv=dv):
+                c = c.strip()
+                if not (c.kind == "BinaryOperator" and c.op in ("==", "!=")):
+                    return None
+                sides = []
+                for a in c.children:
+                    a = std_unwrap(a)
+                    if not (a.is_call() and a.callee and a.callee["n"] == "pfx_of" and len(a.args) >= 2):
+                        return None
+                    d = a.args[-1].strip()
+                    if not (d.kind == "BinaryOperator" and d.op == "+" and ((is_dv(d.children[0]) and d.children[1].strip().cv() == 1) or
+                                                                            (is_dv(d.children[1]) and d.children[0].strip().cv() == 1))):
+                        return None
+                    sides.append(canon(a.args[-2]))
+                if len(set(sides)) != 2:
+                    return None
+                return c.op
+
+            def transfer(n, st, dv=dv):
+                adv = False
+                if n.kind == "UnaryOperator" and n.op == "++" and is_dv(n.children[0]):
+                    adv = True
+                elif n.kind == "CompoundAssignOperator" and n.op == "+=" and is_dv(n.children[0]) and n.children[1].strip().cv() == 1:
+                    adv = True
+                elif n.kind == "BinaryOperator" and n.op == "=" and is_dv(n.children[0]):
+                    r = n.children[1].strip()
+                    if r.kind == "BinaryOperator" and r.op == "+" and any(is_dv(c_) for c_ in r.children):
+                        adv = True
+                    else:
+                        return ["untested"]
+                if adv:
+                    if st != "tested":
+                        bad.append(n.loc)
+                    return ["untested"]
+                return [st]
+
+            def refine(cond, truth, st):
+                op = next_digit_test(cond)
+                if op is None:
+                    return [st]
+                return ["tested" if (op == "==") == truth else "untested"]
+            flow.run(f, ["untested"], transfer, refine)
+            ctx.inst("E.split-depth-tested", "%s: depth counter #%d" % (f.uq, n_split), not bad, (bad[0] if bad else f.loc),
+                     ("the counter is advanced at %s on a path that did not compare digit d+1 of the key with digit d+1 of the "
+                      "sibling's prefix: the split node may get a depth at which the two already differ" % bad[0]) if bad else
+                     "every advance follows a successful comparison of the next digit", f)
+    if n_split == 0:
+        raise AnalysisBroken("anchor vanished: depth counter of the split node in find_or_insert")
+    check_iterator_present(ctx, unit)
     # address stability
     for r in unit.record(TREE):
         inst = r["qn"]
@@ -542,3 +615,116 @@ def check_entry_reuse(ctx, unit):
                  ("erase() runs no destructor and find_or_insert() constructs into the slot of an existing leaf at %s: insert(k); erase(k); "
                   "insert(k) constructs a new value over a live one and the erased value is never destroyed" % reuse[0].loc) if not ok else
                  "erased values are destroyed before their slot is reused", f)
+
+
+
+# ---- E.iterator-present: an iterator position handed out designates a slot whose mask bit was seen set -------------------
+
+def _strip_casts(x):
+    hops = 0
+    x = std_unwrap(x)
+    while x.kind in ("CStyleCastExpr", "CXXStaticCastExpr", "ImplicitCastExpr", "ParenExpr", "CXXFunctionalCastExpr") and x.children and hops < 8:
+        x, hops = std_unwrap(x.children[0]), hops + 1
+    return x
+
+
+def _mask_owner(f, m):
+    """canon of the node whose mask is loaded by expression m (possibly shifted right, possibly held in a local)"""
+    for _ in range(6):
+        m = _strip_casts(RA.resolve_local(f, _strip_casts(m)))
+        if m.kind == "BinaryOperator" and m.op == ">>":
+            m = m.children[0]
+            continue
+        break
+    m = _strip_casts(m)
+    if m.kind == "CXXMemberCallExpr" and m.callee and m.callee["n"] == "load" and m.child("obj") is not None:
+        o = std_unwrap(m.child("obj"))
+        if o.kind == "MemberExpr" and o.m == "mask" and o.children:
+            return canon(std_unwrap(o.children[0]))
+    return None
+
+
+def _bit_test(c):
+    c = _strip_casts(c)
+    if c.kind == "BinaryOperator" and c.op == "&":
+        for a, b in ((c.children[0], c.children[1]), (c.children[1], c.children[0])):
+            b_ = _strip_casts(b)
+            if b_.kind == "BinaryOperator" and b_.op == "<<" and _strip_casts(b_.children[0]).cv() == 1:
+                return a, b_.children[1]
+    return None
+
+
+def check_iterator_present(ctx, unit, rule="E.iterator-present"):
+    ctx.rule(rule, "begin() and operator++ hand out a position (leaf, index) only when that leaf's mask bit for the index was seen "
+             "set on that path (tested directly, or the index is the count of trailing zeros of a mask known to be non-zero), or "
+             "the end position", 2)
+    n_inst = 0
+    for f in unit.functions:
+        oc = f.owner_cls or ""
+        if not oc.startswith(TREE):
+            continue
+        sites = []      # (at node, node canon, index node or None-for-field, label)
+        if f.name == "begin" and oc == TREE:
+            for r in f.events():
+                if r.kind == "ReturnStmt" and r.child("val") is not None:
+                    for x in r.child("val").walk():
+                        if x.kind in ("CXXTemporaryObjectExpr", "CXXConstructExpr", "InitListExpr") and "iterator" in (x.get("t") or ""):
+                            a = x.args if x.kind != "InitListExpr" else x.children
+                            if len(a) == 2:
+                                sites.append((r, canon(std_unwrap(a[0])), a[1], "iterator{leaf, index}"))
+                            break
+        elif f.name == "operator++" and oc.endswith("::iterator"):
+            for r in f.events():
+                if r.kind == "ReturnStmt":
+                    sites.append((r, "this._n", None, "return"))
+        for k, (at, ncanon, inode, what) in enumerate(sites):
+            facts = flow.facts_at(f, at.id)
+            ok, why = False, "no test of the mask bit for this index (and no non-zero mask behind a trailing-zero count) dominates it"
+            for cond, truth in facts:
+                cs = cond.strip()
+                # the end position: the leaf pointer is null
+                t, c2 = truth, cs
+                while c2.kind == "UnaryOperator" and c2.op == "!":
+                    c2, t = c2.children[0].strip(), not t
+                if inode is None and not t and path(c2) == ("this", "_n"):
+                    ok, why = True, "end position (no further leaf)"
+                bt = _bit_test(cs) if truth else None
+                if bt is not None:
+                    mo = _mask_owner(f, bt[0])
+                    idx_same = (path(bt[1]) == ("this", "_idx")) if inode is None else (canon(std_unwrap(bt[1])) == canon(std_unwrap(inode)))
+                    node_same = mo is not None and (mo == ncanon or (inode is None and mo in ("this._n", canon_this_n(f))))
+                    if idx_same and node_same:
+                        ok, why = True, "mask bit tested for this leaf and index"
+            if not ok:
+                # index = count of trailing zeros of M, with M known non-zero on this path
+                tz = None
+                if inode is not None:
+                    v = _strip_casts(RA.resolve_local(f, _strip_casts(inode)))
+                    if v.is_call() and v.callee and v.callee["n"] in ("__builtin_ctz", "__builtin_ctzl", "__builtin_ctzll", "countr_zero") and v.args:
+                        tz = v.args[0]
+                else:
+                    blk = f.blocks[f.positions()[at.id][0]]
+                    for e in blk.elems:
+                        if e == at.id:
+                            break
+                        x = f.node(e)
+                        if x.kind in ("CompoundAssignOperator", "BinaryOperator") and x.get("op") in ("+=", "=") and path(x.children[0]) == ("this", "_idx"):
+                            for y in x.children[1].walk():
+                                if y.is_call() and y.callee and y.callee["n"] in ("__builtin_ctz", "__builtin_ctzl", "__builtin_ctzll", "countr_zero") and y.args:
+                                    tz = y.args[0]
+                if tz is not None:
+                    mo = _mask_owner(f, tz)
+                    for cond, truth in facts:
+                        cs = _strip_casts(cond)
+                        if truth and canon(cs) == canon(_strip_casts(tz)) and mo is not None and (mo == ncanon or inode is None):
+                            ok, why = True, "index is the trailing-zero count of a mask tested non-zero"
+                    if not ok:
+                        why = "the index is the trailing-zero count of a mask that is not known to be non-zero on this path (an emptied leaf has mask 0)"
+            n_inst += 1
+            ctx.inst(rule, "%s: %s #%d" % (f.uq, what, k + 1), ok, at.loc, why, f)
+    if n_inst < 2:
+        raise AnalysisBroken("anchor vanished: positions handed out by begin()/operator++ of the radix tree iterator")
+
+
+def canon_this_n(f):
+    return "this._n"
